@@ -150,6 +150,8 @@ def perturb(rng, spec):
     choices = ["same", "name", "dtype"]
     if isinstance(spec, (specs.DiscreteArray, specs.MultiDiscreteArray)):
         choices += ["num_values"]
+        if isinstance(spec, specs.MultiDiscreteArray):
+            choices += ["shape_same_counts", "shape_same_counts"]
     else:
         choices += ["shape"]
         if isinstance(spec, specs.BoundedArray):
@@ -174,6 +176,14 @@ def perturb(rng, spec):
                 return "same", spec.replace()
             nv.reshape(-1)[int(rng.integers(nv.size))] += 1
             return c, spec.replace(num_values=jnp.asarray(nv))
+        if c == "shape_same_counts":
+            # another shape whose counts broadcast against this one's: one more leading axis, or (for equal counts) another length
+            nv = np.asarray(spec.num_values)
+            if nv.size == 0:
+                return "same", spec.replace()
+            if nv.ndim == 1 and len(set(nv.tolist())) == 1 and rng.random() < 0.5:
+                return c, spec.replace(num_values=jnp.asarray(np.full((nv.shape[0] + 1,), nv[0], nv.dtype)))
+            return c, spec.replace(num_values=jnp.asarray(nv.reshape((1,) + nv.shape)))
         if c == "shape":
             return c, spec.replace(shape=tuple(spec.shape) + (1,)) if not isinstance(spec, specs.BoundedArray) else spec.replace(shape=(1,) + tuple(spec.shape))
         if c == "minimum":
